@@ -78,12 +78,12 @@ theorem bufferLoopBlock_pres (s : Sys) (now : Time) : Pres s (s.bufferLoopBlock 
     simp only
     have h1 : Pres s (if d.startHot2Cold = true then (s.spawn (.hot2cold none) now).1 else s) := by
       split
-      · exact Pres.spawn _ _ _ ⟨rfl, rfl, rfl, rfl, rfl⟩
+      · exact Pres.spawn _ _ _ ⟨rfl, rfl, rfl, rfl, rfl⟩ ⟨by simp [PK.tag], by simp, by simp⟩
       · exact Pres.refl _
     refine h1.trans ?_
     generalize (if d.startHot2Cold = true then (s.spawn (.hot2cold none) now).1 else s) = s1
     split
-    · exact Pres.spawn _ _ _ ⟨rfl, rfl, rfl, rfl, rfl⟩
+    · exact Pres.spawn _ _ _ ⟨rfl, rfl, rfl, rfl, rfl⟩ ⟨by simp [PK.tag], by simp, by simp⟩
     · exact Pres.refl _
 
 theorem batchPlan_ing (o : Obs) (c : Nat) : IngRecs (batchPlan o c).1 := by
@@ -124,7 +124,8 @@ theorem schedLoopBlock_pres (s : Sys) (now : Time) (orc : Oracle) :
         · exact h1
         · refine h1.trans ?_
           refine Pres.trans (b := { s with schEvents := [], buf := b1, tasks := s.tasks ++ recs, plans := (s.plans.filter (·.obs ≠ oid)) ++ [plan], queue := s.queue ++ [oid] }) (Pres.core ⟨rfl, rfl, rfl, rfl, rfl, rfl, rfl, rfl⟩) ?_
-          refine (Pres.spawn _ (.allocTasks oid [] [] [] false) now ⟨rfl, rfl, rfl, rfl, rfl⟩).trans ?_
+          refine (Pres.spawn _ (.allocTasks oid [] [] [] false) now ⟨rfl, rfl, rfl, rfl, rfl⟩
+            ⟨by simp [PK.tag], by simp, by simp⟩).trans ?_
           exact Pres.core ⟨rfl, rfl, rfl, rfl, rfl, rfl, rfl, rfl⟩
   · pres_core
 
